@@ -5,6 +5,7 @@ pub mod diff;
 pub mod report;
 pub mod rng;
 pub mod runner;
+pub mod serdiff;
 pub mod shapes;
 pub mod simformat;
 pub mod simio;
